@@ -87,7 +87,7 @@ def main():
     q = queue.Queue()
     for n in names:
         q.put(n)
-    respath = os.path.join(V, "seeded", "RESULTS.json")
+    respath = os.environ.get("SEEDED_RESULTS") or os.path.join(V, "seeded", "RESULTS.json")
     results = json.load(open(respath)) if os.path.exists(respath) else {}
     lock = threading.Lock()
 
